@@ -140,3 +140,15 @@ Definition dec_val_case (t : ty) (v : val) (obs : obj) (clean : bool) : Z :=
 
 Definition size_case (t : ty) (c go gosz py : Z) : Z :=
   if (c =? nbytes t) && (go =? nbytes t) && (gosz =? nbytes t) && (py =? nbytes t) then 0 else 2.
+
+(* ---- the same with the storage byte order E explicit (E = BE: the BP_BIG_ENDIAN build fed
+   big-endian storage on schemas where no native multi-byte access is executed) ---- *)
+Definition enc_case_h (B E : endian) (with_spec : bool) (t : ty) (o : obj) (obs : list Z) (clean : bool) : Z :=
+  code (res_lz_eqb (c_encode_ty B E t o) obs && clean)
+       (if with_spec then lz_eqb (wire t (abs_val E (norm t) o)) obs && clean else true).
+
+Definition store_case_h (E : endian) (t : ty) (v : val) (o : obj) : Z :=
+  if obj_eqb (store E (norm t) v) o then 0 else 4.
+
+Definition dec_val_case_h (E : endian) (t : ty) (v : val) (obs : obj) (clean : bool) : Z :=
+  if obj_eqb (store E (norm t) v) obs && clean then 0 else 2.
